@@ -450,6 +450,41 @@ def option_snapshot(et: int, es: int, mt: int, ms: int, shape: int) -> bool:
     return H.done(census_ok(res, t2l, s2l) and match(res, expected(spec), t2l, s2l))
 
 
+def run_bare_history(spec, t2l, s2l, how):
+    """a host context without any finaliser is used once (results are raw there by design) and afterwards becomes the
+    root of a full standard context / the linked part of a LinkedContext over one: results are finalised there"""
+    import yaql
+    from yaql.language import contexts
+    with H.NoTracing():
+        base = contexts.Context()
+        base.register_function(lambda: 42, name='answer')
+        eng = engine_with(t2l, s2l)
+        eng('answer()').evaluate(context=base)
+        if how == 0:
+            full = yaql.create_context(context=base)
+        else:
+            full = contexts.LinkedContext(yaql.create_context(), base)
+    c = full.create_child_context()
+    c['v'] = build(spec)
+    return eng('[$v, answer()][0]').evaluate(context=c)
+
+
+def bare_history(shape: int, t2l: bool, s2l: bool, how: int) -> bool:
+    """
+    pre: 0 <= shape < len(LEVEL_VALUES) and 0 <= how < 2
+    pre: H.fresh(shape, t2l, s2l, how)
+    post: _
+    """
+    outer, inner = pick(LEVEL_VALUES, shape)
+    how = pick([0, 1], how)
+    spec = shape_spec(outer, inner, 1, 10, 'v')
+    try:
+        res = run_bare_history(spec, t2l, s2l, how)
+    except Exception:
+        return H.done(False)
+    return H.done(census_ok(res, t2l, s2l) and match(res, expected(spec), t2l, s2l))
+
+
 OUTERS = [k for k in OUTER_KINDS if k != 'range']
 
 
@@ -734,6 +769,9 @@ def conditions(tier, seed):
         add('option_levels[%s]' % what, 'option_levels', 'conversion options absent/on/off (symbolic) at engine creation '
             'and again per statement through %s: the later level wins, defaults tuples->lists on, sets->lists off; '
             '%d value shapes' % (what, 2 if q else 4), 300 if q else 600, how=how, nshapes=2 if q else 4)
+    add('bare_history', 'bare_history', 'a context without finaliser is evaluated on once, then becomes the root of '
+        'yaql.create_context(context=...) / the linked part of a LinkedContext over a standard context: a value of 4 shapes '
+        'is finalised there per the options (t2l, s2l symbolic)', 300 if q else 600)
     add('option_snapshot', 'option_snapshot', 'the dict given to factory.create(options=...) is changed by the host after the '
         'engine was created (each conversion option absent/on/off before; cleared, all on or all off after; symbolic): finalisation follows the '
         'creation-time values', 300 if q else 600)
@@ -832,6 +870,18 @@ def replay(cond, args):
         outer, ik = PROBE_SHAPES[p['probe_key']][vals['i']]
         spec = shape_spec(outer, ik, 1, 0, '')
         node = expected(spec)
+    elif f == 'bare_history':
+        outer, inner = LEVEL_VALUES[vals['shape']]
+        spec = shape_spec(outer, inner, 1, 10, 'v')
+        try:
+            got = repr(run_bare_history(spec, t2l, s2l, vals['how']))
+        except Exception as e:
+            got = 'raises %r' % e
+        return {'reproduced': True, 'key': 'C10/bare_history',
+                'what': 'a context without finaliser evaluated on once and then used as %s, convertTuplesToLists=%s '
+                        'convertSetsToLists=%s, value %s: result %s; expected %r'
+                        % (['the root of yaql.create_context(context=...)', 'the linked part of a LinkedContext'][vals['how']],
+                           t2l, s2l, spec_text(spec), got, expected(spec))}
     elif f == 'option_snapshot':
         et, es, mt, ms = [TRI[vals[k]][0] for k in ('et', 'es', 'mt', 'ms')]
         outer, inner = LEVEL_VALUES[vals['shape']]
